@@ -269,6 +269,40 @@ def copy_histories(rng, tier: str) -> list[dict]:
 
 
 
+def linked_output_histories(tier: str) -> list[dict]:
+    """(round 5) REBUILDS with `#static` through every way of reaching the output directory (`c10.PATH_ENVS`: symbolic link
+    to / above the output directory, link chain, `..` after a link, relative with `..`).  The lexically normalised spelling
+    (os.path.abspath) and the link-resolved one (Path.resolve) of the static folder differ there: header, `rmtree` and
+    `merged_func_tag` must agree on ONE of them.  first build - statics registered - plain rebuild - rebuild after a source
+    change - (last) rebuild; every build spells its `#static` arguments another way; each build is tied to Model/Build.v
+    with the statics computed from the header text (Model/BuildPath.v), the last one is compared with the fresh build."""
+    A = "\n".join([TICK, fn("f"), 'new advancement(x.y) {"a":1}'])
+    B = fn("g")
+    sts = ["keep", "../minecraft/keepmc", "function/lib"]
+    touch = [["data/ns/keep/a.txt", "precious"], ["data/ns/keep/sub/b.txt", "more"], ["data/minecraft/keepmc/m.txt", "m"],
+             ["data/ns/function/lib/hand.mcfunction", "say lib"]]
+    shield = [["data/minecraft/tags/function/load.json", canon(["hand:init", "ns:__load__"])], ["data/minecraft/tags/hand.txt", "h"]]
+    hs = []
+    for ei, env in enumerate(c10.PATH_ENVS):
+        def hdr(k, names):
+            return "\n".join('#static "%s"' % (lambda sp: sp[(ei + k + 3 * j) % len(sp)])(c10.static_spellings(st, env)) for j, st in enumerate(names))
+        linked = bool(env.get("links"))
+        hs.append(dict(ns="ns", pack_format="48", desc="d", out_exists=True, init=[], copy_src=None, paths=c10.path_env(env),
+                       statics=list(sts), static_touch=[list(t) for t in touch] + [["data/ns/keep/new.txt", "new"]],
+                       light=not (linked and (tier != "quick" or env["name"] in ("linked-output", "linked-chain"))),
+                       builds=[dict(src=A, header=None), dict(src=A, header=hdr(0, sts), touch=[list(t) for t in touch]),
+                               dict(src=A, header=hdr(1, sts)), dict(src=B, header=hdr(2, sts), touch=[["data/ns/keep/new.txt", "new"]])],
+                       last=dict(src=A + "\n" + B, header=hdr(3, sts))))
+        if linked:      # the function tags themselves shielded (`static in tag.resolve().parents`): foreign entries survive rebuilds
+            tg = ["../minecraft/tags"]
+            hs.append(dict(ns="ns", pack_format="48", desc="d", out_exists=True, init=[], copy_src=None, paths=c10.path_env(env), light=True,
+                           statics=tg, static_touch=[list(x) for x in shield] + [["data/minecraft/tags/function/tick.json", canon([])]],
+                           builds=[dict(src=A, header=None), dict(src=B, header=hdr(0, tg), touch=[list(x) for x in shield]),
+                                   dict(src=B, header=hdr(1, tg))],
+                           last=dict(src=B, header=hdr(2, tg))))
+    return hs
+
+
 # ---- strengthening round 1: #static folders whose NAME is string-related to a JMC-generated sibling that later disappears.
 # `rmtree` must decide by path containment; a decision by string prefix / case-folded or reversed comparison shields the
 # generated sibling (`function/util` vs `function/utils/x.mcfunction`, `adv` vs `advancement/`, `function/f` vs
@@ -591,7 +625,7 @@ def main(tier: str) -> int:
     ]
     ck.proof(extra_targets=["Run/C10.vo", "Run/C11.vo"])
     n_rand = 6 if tier == "quick" else 36
-    hs = fixed_histories() + [gen_history(ck.rng) for _ in range(n_rand)] + family_histories(ck.rng, tier) + copy_histories(ck.rng, tier)
+    hs = fixed_histories() + [gen_history(ck.rng) for _ in range(n_rand)] + family_histories(ck.rng, tier) + copy_histories(ck.rng, tier) + linked_output_histories(tier)
     for h in hs:
         if h.pop("quick_light", False) and tier == "quick":
             h["light"] = True          # quick tier: the un-interrupted run, twice and the fresh comparison only
